@@ -574,6 +574,12 @@ func (e *Env) trCall(x *ECall) TV {
 			}
 		}
 		e.fail("len of sort %s", a.T.Sort)
+	case "arrOf": // identity of the backing array of a slice
+		need(1)
+		return TV{T: App("s_arr", SInt, argOf(0).T), Ty: intT}
+	case "offOf": // offset of the slice in its backing array
+		need(1)
+		return TV{T: App("s_off", SInt, argOf(0).T), Ty: intT}
 	case "cap":
 		need(1)
 		return TV{T: App("s_cap", SInt, argOf(0).T), Ty: intT}
